@@ -188,7 +188,7 @@ class GaussianVarCost(BaseCost):
         self._param = self._check_param(self.param, X)
 
         self.sums_ = col_cumsum(X, init_zero=True)
-        self.sums2_ = col_cumsum(X**2, init_zero=True)
+        self.sums2_ = col_cumsum(X.astype(np.float64) ** 2, init_zero=True)
         return self
 
     def _evaluate_optim_param(self, starts: np.ndarray, ends: np.ndarray) -> np.ndarray:
